@@ -19,12 +19,18 @@ CHECKS = {
          "input by the interval analysis (guards, lengths, struct-field invariants inferred on every run) or is on the baseline of "
          "sites that existed on the pinned tree (listed per function as confirmed or untriaged = not claimed) -- a new unproven "
          "site, or the loss of a guard that made one provable, is a violation; (i) every hand-written Iterator::next mutates the "
-         "iterator on every path that yields Some (an iterator that can yield without progress never terminates). Not decided: "
-         "the baseline's untriaged sites, termination of loops other than through (i), the linear-time clause.",
+         "iterator on every path that yields Some (an iterator that can yield without progress never terminates); (j) loop "
+         "census: every natural loop of hand-written font-types / read-fonts code is paced -- each trip advances an iterator that is "
+         "finite by construction, caller-supplied or repo-defined (delegated), or moves a counter by a constant towards a bound the "
+         "loop cannot change, with the exit test on every trip -- or is on the baseline of loops that existed on the pinned tree "
+         "(not claimed); a new unpaced loop or a loop that lost its pacing is a violation. Closed functions (restricted visibility, "
+         "never used as a value) are analysed under the facts every call site establishes for their parameters. Six genuine "
+         "defects found by triaging baseline entries were repaired (F15-F18 in layout.rs). Not decided: the baseline's untriaged "
+         "sites and loops, finiteness of repo-defined iterators, the linear-time clause.",
     note="Trusted: rustc layout/MIR, bytemuck's own checks, confirmed per-function reasons in rules/confirmed_panics_read_fonts.json (read by hand). C01-d (generated shape agreement) is reported under C04's engine when built.",
  ),
  "C02": dict(
-    technique="call-graph SCC recognisers, who-may-write-a-field queries with interval bounds, dominating-guard / must-pass-through path rules, result-fate queries, explicit-panic inventory, panic-site census by interval/relational abstract interpretation with inferred field invariants, iterator-progress typestate",
+    technique="call-graph SCC recognisers, who-may-write-a-field queries with interval bounds, dominating-guard / must-pass-through path rules, result-fate queries, explicit-panic inventory, panic-site census by interval/relational abstract interpretation with inferred field invariants and call-site entry facts, iterator-progress typestate, natural-loop pacing census",
     design_ref="DESIGN.md §4 C02",
     text="Claimed in part. Decides: no unsafe code in skrifa / IFT; every call-graph cycle in skrifa, IFT, the brotli wrapper and "
          "the read-fonts code they reach is depth bounded (composites, paint graphs, charstring subroutines, GSUB nesting, IFT entry "
@@ -37,8 +43,10 @@ CHECKS = {
          "is at most 0xFFFF (looped instructions run inside one dispatch, outside every budget); census of every indexing / "
          "slicing / split / copy / division site in skrifa, IFT and the brotli wrapper against the baseline (as C01-h: proved, or "
          "listed as existing on the pinned tree and not claimed; anything new is a violation); every hand-written Iterator::next "
-         "makes progress on every yielding path. One genuine defect is a known finding (F5). Not decided: the baseline's untriaged "
-         "sites (scaler buffer slicing, autohinter and CFF hinter indexing), loop termination in CFF/autohint code, non-finite floats.",
+         "makes progress on every yielding path; loop census over skrifa / IFT / the brotli wrapper (as C01-j: 281 of 308 loops paced "
+         "automatically, the rest on the baseline and not claimed). One genuine defect is a known finding (F5); F19 (IFT feature "
+         "map u16 arithmetic) and F20 (COLR variation index overflow) were repaired. Not decided: the baseline's untriaged "
+         "sites and loops (scaler buffer slicing, autohinter indexing and ring walks, binary searches), non-finite floats.",
     note="Trusted: rustc MIR, call-graph construction (A-CB), confirmed per-function reasons in rules/confirmed_panics_client.json, the brotli FFI.",
  ),
  "C04": dict(
@@ -57,13 +65,15 @@ CHECKS = {
     note="Trusted: syn parsing; the statement grammar enumerated from font-codegen (anything else fails closed); rustc MIR for C04-e. Genuine defects repaired: F2 (generator), F14 (Colr::compute_version).",
  ),
  "C05": dict(
-    technique="path-sensitive typestate {dirty,clean} over MIR, dominating-guard and who-may-call queries, cast census, sibling-predicate agreement",
+    technique="path-sensitive typestate {dirty,clean} over MIR, dominating-guard and who-may-call queries, cast census, sibling-predicate agreement, derive/field-observation query on the de-duplication key types",
     design_ref="DESIGN.md §4 C05",
     text="Decides for all CFG paths: pack_objects/basic_sort return true only when no call taking &mut Graph lies between the last "
          "overflow query that reported none and the return; Graph::serialize is called only from dump_table under the true edge of "
          "pack_objects() with no mutation in between and the false edge returns PackingFailed; write_offset narrows only through "
          "u16::try_from / Uint24::checked_new (no `as` truncation, failure panics rather than defaulting); has_overflows and "
-         "find_overflows test identical normalised conditions. Does not decide that node positions equal final byte offsets, nor "
+         "find_overflows test identical normalised conditions; the object store's de-duplication key observes every byte and every "
+         "field of every offset record (TableData's hand-written Hash/PartialEq read `bytes` and `offsets`; OffsetRecord, OffsetLen, "
+         "ObjectId derive them). Does not decide that node positions equal final byte offsets, nor "
          "duplication / splitting / promotion arithmetic (value level) -- the hook named in the property is not needed because "
          "nothing is executed.",
     note="Trusted: rustc MIR, fact dumper, explorer. The overflow predicate itself (max_value(len) < child.pos - parent.pos) is taken as the definition of 'fits'.",
@@ -155,7 +165,7 @@ CHECKS = {
     text="Decides for all CFG paths: both apply entry points are gated by the two compatibility-id comparisons whose mismatch "
          "edge returns IncompatiblePatch, and the appliers/decoder have no other callers (no decoding for a mismatched id); in "
          "apply_next_patches_with_decoder no exit other than Ok is reachable after any store to a UriStatus and every store "
-         "writes Applied (atomic bookkeeping for a decoder failing at any call); every decode/applier result is propagated; a "
+         "writes Applied, a call receiving &mut UriStatus counts as a store (atomic bookkeeping for a decoder failing at any call); every decode/applier result is propagated; a "
          "REPLACE_TABLE entry is decoded without a dictionary; in the glyph-keyed applier a tag is marked processed only after a "
          "call that received the new font's builder (untouched tables are copied). Does not decide which bytes change, glyph-keyed order "
          "independence or offset widening arithmetic (value level).",
